@@ -651,10 +651,8 @@ func (fr *frame) doUnOp(x *ssa.UnOp, st *state) {
 		v := fr.load(a, st)
 		v.GT = x.Type()
 		fr.setValNamed(x, v)
-		// typed loads carry their range
-		for _, c := range vc.validity(fr.vals[x], 0) {
-			vc.assume(st.reach, c)
-		}
+		// typed loads carry their range; references found in memory were allocated earlier
+		fr.assumeLoaded(fr.vals[x], st)
 	case token.NOT:
 		fr.setVal(x, T{not(fr.val(x.X).S), "Bool", x.Type()})
 	case token.SUB:
@@ -934,5 +932,15 @@ func (fr *frame) runDefers(st *state) {
 	for i := len(fr.defers) - 1; i >= 0; i-- {
 		d := fr.defers[i]
 		fr.call(d.Common(), nil, st, fr.pos(d.Pos()))
+	}
+}
+
+func (fr *frame) assumeLoaded(v T, st *state) {
+	vc := fr.vc
+	for _, c := range vc.validity(v, 0) {
+		vc.assume(st.reach, c)
+	}
+	for _, c := range vc.allocFacts(v, st.next, 0) {
+		vc.assume(st.reach, c)
 	}
 }
